@@ -225,6 +225,63 @@ READ_EXC = {
 }
 
 
+REPORTS = re.compile(r"CheckResultsCollector::(add_error|add_warn)$|::from_residual$|^std::rt::|panicking::|::panic|::unwrap$|::expect$|::send$")
+
+
+def _err_arm_reports(b, bb):
+    """the Result of the call at bb is inspected with match / if let. Evaluated under the assumption "the result is Err"
+    (every switch on the discriminant of a place of the result's type that holds it takes the Err edge): every way on to the
+    function's return or round the enclosing loop passes a point where the error is returned (`_0 = Err(..)`), re-raised
+    (`?`), recorded in the check results, sent on, or the thread panics. `Err(e) => { warn!(..); continue }` does not."""
+    t = b.term(bb)
+    rty = t.get("dest_ty", "")
+    aliases, _, _ = flow.forward_aliases(b, t["dest"][0], through=flow._RESULT_THROUGH)
+    aliases = set(aliases) | {t["dest"][0]}
+    backs = set(C.back_edges(b))
+
+    def reports(r_):
+        blk = b.blocks[r_]
+        for s_ in blk["s"]:
+            if s_[0] == "=" and s_[2][0] == "agg" and s_[2][1][0] == "adt" and s_[2][1][2] == "Err" and (s_[1] == [0] or "Option" in (b.locals[0] or "")):
+                return True
+        tr = blk["t"]
+        if tr["k"] == "call" and "callee" in tr and (REPORTS.search(callee(tr)) or REPORTS.search(callee_decl(tr))):
+            return True
+        if tr["k"] == "call" and tr.get("to") is None:
+            return True               # diverging call (panic)
+        return tr["k"] in ("unreachable", "resume")
+    start = t.get("to")
+    if start is None:
+        return True
+    seen, work = set(), [start]
+    inspected = False
+    while work:
+        x = work.pop()
+        if x in seen:
+            continue
+        seen.add(x)
+        if reports(x):
+            continue
+        tt = b.term(x)
+        if tt["k"] == "return":
+            return False if inspected else True
+        succ = list(b.succ(x))
+        if tt["k"] == "switch":
+            dl = op_local(tt["discr"])
+            src = [s_ for s_ in b.blocks[x]["s"] if s_[0] == "=" and s_[1] == [dl] and s_[2][0] == "discr" and s_[2][1] and s_[2][1][0] in aliases and str(s_[2][2]) == rty]
+            if src:
+                inspected = True
+                errt = [y for v, y in tt["targets"] if v == "1"]
+                succ = [errt[0] if errt else tt["otherwise"]]
+        for y in succ:
+            if (x, y) in backs:
+                if inspected:
+                    return False      # round the loop with the error neither reported nor returned
+                continue
+            work.append(y)
+    return True
+
+
 def run_reads(ctx, rep, rule):
     """no Result of a repository READ (file, blob, listing, stream creation) is thrown away: `.ok()`, `unwrap_or*`,
     `is_ok()`, `_ = ..` on such a call turns an authentication / I/O failure into 'nothing there'"""
@@ -244,6 +301,9 @@ def run_reads(ctx, rep, rule):
             c = strip_crate(callee_decl(t)).rsplit("::", 1)[-1]
             ordn[(k, c)] = ordn.get((k, c), 0) + 1
             bad = kind in ("discarded", "dropped")
+            if kind == "matched" and not _err_arm_reports(b, bb):
+                bad = True
+                kind = "matched with an Err arm that neither returns the error, panics nor records it (logged / skipped)"
             why = READ_EXC.get(k) if bad else None
             if bad or why:
                 rep.check(rule + "r", f"{k}/{c}/{ordn[(k, c)]}", why is not None, where=where(b, bb),
